@@ -80,11 +80,27 @@ const MANT_PATTERNS_24: &[u32] = &[
     0x123456, 0x7edcba, 0x000003, 0x7ffffd, 0x010101, 0x0f0f0f, 0x700000, 0x00ffff, 0x333333,
 ];
 
+/// The first `n` mantissa patterns: the hand-picked ones, continued by the multiplicative sequence
+/// j * 0x9E3779 mod 2^23 (a fixed enumeration that spreads over all bit positions).
+fn mant_patterns(n: usize) -> Vec<u32> {
+    let mut v: Vec<u32> = MANT_PATTERNS_24.iter().cloned().take(n).collect();
+    let mut j = 1u32;
+    while v.len() < n {
+        let p = j.wrapping_mul(0x9E3779) & 0x7fffff;
+        if !v.contains(&p) {
+            v.push(p);
+        }
+        j += 1;
+    }
+    v
+}
+
 /// Halfway cases by construction. Returns number of cases.
 fn halfway_f32(ctx: &Ctx, base: u64, exp_step: usize, npat: usize) -> u64 {
     let mut n = 0u64;
+    let pats = mant_patterns(npat);
     for e in (0..=254u32).step_by(exp_step) {
-        for &mp in &MANT_PATTERNS_24[..npat] {
+        for &mp in &pats {
             let bits = (e << 23) | mp;
             let f = f32::from_bits(bits);
             let up = f32::from_bits(bits + 1);
@@ -125,8 +141,9 @@ fn halfway_f32(ctx: &Ctx, base: u64, exp_step: usize, npat: usize) -> u64 {
 
 fn halfway_f64(ctx: &Ctx, base: u64, exp_step: usize, npat: usize) -> u64 {
     let mut n = 0u64;
+    let pats = mant_patterns(npat);
     for e in (0..=2046u64).step_by(exp_step) {
-        for &mp24 in &MANT_PATTERNS_24[..npat] {
+        for &mp24 in &pats {
             // spread the 24-bit pattern over 52 bits
             let mp: u64 = ((mp24 as u64) << 29) | ((mp24 as u64) << 5 & 0x1fff_ffff) | (mp24 as u64 & 1);
             let mp = mp & 0x000f_ffff_ffff_ffff;
@@ -431,7 +448,7 @@ pub fn run(ctx: &'static Ctx) -> i32 {
         |i| json!({"kind": "float", "literal": lits[i as usize]}),
     );
     let float_lits: u64 = accs.iter().sum();
-    let (s32, p32, s64, p64) = ctx.tier.pick((1usize, 8usize, 8usize, 6usize), (1, 24, 1, 24));
+    let (s32, p32, s64, p64) = ctx.tier.pick((1usize, 8usize, 8usize, 6usize), (1, 2048, 1, 512));
     let h32 = halfway_f32(ctx, nl, s32, p32);
     let h64 = halfway_f64(ctx, nl + (1 << 24), s64, p64);
     let kw = keyword_check(ctx, nl + (2 << 24));
